@@ -99,7 +99,7 @@ S4Objs(v) ==
       groups |-> IF v % 2 = 0 THEN <<"g1", Nasty[((v + 2) % 6) + 1]>> ELSE <<>>,
       cache |-> IF v % 4 = 0 THEN <<"nocache", 0>> ELSE IF v % 4 = 1 THEN <<"maxstale", 0>>
                 ELSE IF v % 4 = 2 THEN <<"expires", 77>> ELSE <<"expiresat", 12345>>,
-      cenc |-> v % 4, md5 |-> (v % 3 # 0)],
+      cenc |-> v % 4, md5 |-> (v % 3 # 0), car |-> IF v % 3 = 2 THEN <<"none", 0>> ELSE <<"delay", 1>>],
      [clen |-> 9, loc |-> "file:///dir/o2.bin", oti |-> Oti(IF v % 2 = 0 THEN 6 ELSE 5, 4, 2, 1, v % 3 = 0), count |-> 2,
       cache |-> <<"none", 0>>],
      [clen |-> 0, loc |-> "urn:x:y", oti |-> Oti(1, 4, 3, 0, TRUE), car |-> <<"delay", 1>>] >>
@@ -109,7 +109,10 @@ S4Scripts ==
     << <<"add", 1>>, <<"add", 2>>, <<"add", 3>>, <<"drain">>, <<"adv", 1>>, <<"drain">>, <<"adv", 2>>, <<"drain">>,
        <<"remove", 3>>, <<"publish">>, <<"drain">>, <<"adv", 1>>, <<"drain">> >>,
     << <<"add", 2>>, <<"publish">>, <<"readn", 1>>, <<"add", 1>>, <<"publish">>, <<"publish">>, <<"drain">>,
-       <<"adv", 1>>, <<"drain">>, <<"adv", 1>>, <<"drain">>, <<"adv", 1>>, <<"drain">> >> }
+       <<"adv", 1>>, <<"drain">>, <<"adv", 1>>, <<"drain">>, <<"adv", 1>>, <<"drain">> >>,
+    \* the same objects listed by several instances published at different instants
+    << <<"add", 1>>, <<"publish">>, <<"drain">>, <<"adv", 2>>, <<"publish">>, <<"drain">>, <<"adv", 3>>, <<"add", 2>>, <<"publish">>,
+       <<"drain">>, <<"adv", 1>>, <<"add", 3>>, <<"publish">>, <<"drain">> >> }
 \* polling every second across the expiry of the instance (seconds ticks)
 RECURSIVE PollSecs(_)
 PollSecs(n) == IF n = 0 THEN <<>> ELSE << <<"adv", 1>>, <<"drain">> >> \o PollSecs(n - 1)
